@@ -240,9 +240,12 @@ def jobs(tier, seed):
             for model in ("lin", "quad"):
                 names = MODELS[model][1]
                 pars = names if tier == "thorough" else ([names[0], names[-1]] if model == "lin" else [names[1]])
+                nchunk = 3 if backend == "scipy" else 1
                 for par in pars:
                     for sm in (False, True):
-                        specs.append(("profile", backend, model, vv, par, sm, tier))
+                        for arrows in (True, False):
+                            for chunk in range(nchunk):
+                                specs.append(("profile", backend, model, vv, par, sm, arrows, chunk, nchunk, tier))
         for model in ("lin", "quad"):
             specs.append(("contour", model, vv, tier))
     # heavy (scipy) jobs first; job 0 (re-run for the determinism check) is a light one that fits and profiles
@@ -563,7 +566,7 @@ def judge_profile(spec, sm, arrows, o):
                 bad.append(("arrow.y:" + tag, y_exp, g["y"], "wrong-value"))
             # the outside probability shown must be the one-sided tail of the rise the arrow itself reports
             rise_rep = g["y"] + offset - o["min_cost"]
-            if rise_rep > 0:
+            if rise_rep > 0 and abs(g["y"] - y_exp) <= TOL_ARROW_COST * max(1.0, rise):
                 outside = 0.5 * math.erfc(math.sqrt(0.5 * rise_rep))
                 if not abs(g["cl"] - outside) <= 1e-9:
                     bad.append(("arrow.cl:" + tag, outside, g["cl"], "wrong-value"))
@@ -574,9 +577,10 @@ def _spec_sig(spec):
     return spec[0] + ("*%d" % len(spec[-1]) if isinstance(spec[-1], list) else "")
 
 
-def run_profile(res, backend, model, v, par, sm, tier):
+def run_profile(res, backend, model, v, par, sm, arrows_list, chunk, nchunk, tier):
     specs = SPECS_QUICK + (SPECS_MORE if tier == "thorough" else [])
-    for arrows in (True, False):
+    specs = specs[chunk::nchunk]
+    for arrows in arrows_list:
         for spec in specs:
             o = run_profile_case(backend, model, v, par, sm, arrows, spec)
             res.executions += 1
@@ -597,7 +601,7 @@ def run_profile(res, backend, model, v, par, sm, tier):
             sig = "profile|%s|%s|%s|subtract_min=%s|arrows=%s" % (backend, model, _spec_sig(spec), sm, arrows)
             for obs_name, exp, act, mode in bad:
                 res.violation(sig, hist, obs_name.split(":")[0], exp, act, mode, extra=dict(detail=obs_name))
-    res.sample(dict(kind="profile", backend=backend, model=model, valuation=v, parameter=par, subtract_min=sm, spec=list(specs[3])))
+    res.sample(dict(kind="profile", backend=backend, model=model, valuation=v, parameter=par, subtract_min=sm, spec=list(specs[-1])))
 
 
 # ----------------------------------------------------------------------------------------------------------------------
@@ -714,8 +718,8 @@ def run_job(spec):
     elif kind == "const":
         run_const(res)
     elif kind == "profile":
-        _, backend, model, v, par, sm, tier = spec
-        run_profile(res, backend, model, v, par, sm, tier)
+        _, backend, model, v, par, sm, arrows, chunk, nchunk, tier = spec
+        run_profile(res, backend, model, v, par, sm, [arrows], chunk, nchunk, tier)
     elif kind == "contour":
         _, model, v, tier = spec
         run_contour(res, model, v, tier)
